@@ -180,13 +180,13 @@ def c13(line, obs, sc, ln):
         failed = [j for j in range(b, k + 1) if evs[j] == "ut" and obs[j] == "Ytry_failed"]
         ref = max(spawn + failed) if spawn + failed else b
         nxt = next((j for j in range(k + 1, n) if evs[j].startswith("tick") or evs[j].startswith("restart")), n)
-        u = next((j for j in range(ref, n) if evs[j] == "run" and obs[j] == "Yunlocked"), None)
+        u = next((j for j in range(ref, n) if evs[j] == "run" and obs[j].startswith("Yunlocked")), None)
         if u is None or u >= nxt:
             continue
         v = next((j for j in range(u + 1, n) if evs[j] == "run"), None)
         if v is None or v >= nxt:
             continue
-        if obs[v] != "Ybefore_notify":
+        if not obs[v].startswith("Ybefore_notify"):
             out.append(("lost", "tick (events %d..%d) returned running=true; the run it refers to released the lock at event %d and finished at event %d WITHOUT notifying, before any later tick or restart" % (b, k, u, v)))
     # every completed push is followed by a notification from the pushing thread (counted by the harness)
     return out
